@@ -68,13 +68,18 @@ var faults = []fault{
 
 func genLoc(r *vh.Rand) locCase {
 	lc := locCase{Mode: "loc", Ext: vh.Pick(r, []string{"zy", "php"}), CRLF: r.Chance(35)}
-	if lc.Ext == "php" {
+	shebang := r.Chance(20)
+	if shebang {
+		// a shebang line: the rest of the file is lexed in template mode in both file kinds, and
+		// positions must still be those of the file
+		lc.Lines = append(lc.Lines, "#!/usr/bin/env zy", "<?php")
+	} else if lc.Ext == "php" {
 		lc.Lines = append(lc.Lines, "<?php")
 	}
 	add := func(n int) {
 		for i := 0; i < n; i++ {
 			f := vh.Pick(r, fillers)
-			if f.php && lc.Ext != "php" {
+			if f.php && lc.Ext != "php" && !shebang {
 				continue
 			}
 			for _, l := range f.lines {
